@@ -14,6 +14,7 @@ UNITS = [
 ] + [U("parse_grammar_%d" % t, "h_parse_grammar", canaries=1, defines=["INI_LINES=2", "INI_LINE_MAX=12", "TEMPLATE=%d" % t], bound="documented line form #%d after a section header (fixed template)" % t) for t in range(6)] + [U("parse_grammar_%d" % t, "h_parse_grammar", canaries=1, defines=["INI_LINES=5" if t == 9 else "INI_LINES=2", "INI_LINE_MAX=12", "TEMPLATE=%d" % t], bound=("byte-order mark #%d in front of the first section header (fixed template)" % (t - 5)) if t < 9 else "fixed five-line file: line before any section, repeated key, comment line") for t in range(6, 10)] + [
     U("getters_numeric", "h_getters_numeric", canaries=1, defines=["INI_LINES=2", "INI_LINE_MAX=4"], functions=["p_ini_file_parameter_int"], bound="fixed object, value text '010'"),
     U("getters_numeric_boolean", "h_getters_numeric", canaries=1, tiers=["thorough"], timeout_thorough=3600, defines=["INI_LINES=2", "INI_LINE_MAX=4", "NUMERIC_BOOLEAN"], functions=[], bound="fixed object, value text '010' (the four strcmp calls of the boolean getter on a heap copy cost about ten minutes)"),
+    U("getters_list_single", "h_getters_allocfail", canaries=2, defines=["GETTER=5", "INI_LINES=2", "INI_LINE_MAX=4"], functions=[], bound="fixed object: list value '{c}'"),
     U("getters_list", "h_getters_allocfail", canaries=2, defines=["GETTER=4", "INI_LINES=2", "INI_LINE_MAX=4"], functions=["p_ini_file_parameter_list"], bound="fixed object: list value '{abc d  ef}'"),
     U("getters", "h_getters", canaries=3, functions=["pp_ini_file_find_parameter", "p_ini_file_parameter_string", "p_ini_file_is_key_exists"], bound="one section, two keys, all names/values/queries of length <= 3"),
 ] + [U("getters_words_%d" % t, "h_getters_words", canaries=1, defines=["TEMPLATE=%d" % t, "INI_LINE_MAX=12"], functions=["p_ini_file_parameter_boolean", "p_ini_file_parameter_list", "p_ini_file_parameter_int"] if t == 0 else [],
